@@ -93,6 +93,42 @@ void __asan_storeN_noabort(uintptr_t a, uintptr_t n)
     if (real) real(a, n);
 }
 
+/* libc routines that may be handed arena pointers: link with -Wl,--wrap=<name> for each of VF_WRAPPED.
+ * (GCC expands small constant-size copies inline, those are instrumented loads/stores; the rest arrive here.) */
+#define VF_WRAPPED "memcpy", "memmove", "memset", "memchr", "memcmp", "strlen", "strchr", "strpbrk", "strcspn", "strcmp", "strncmp", "strcasecmp", "strncasecmp"
+void *__real_memcpy(void *, const void *, size_t);
+void *__real_memmove(void *, const void *, size_t);
+void *__real_memset(void *, int, size_t);
+void *__real_memchr(const void *, int, size_t);
+int __real_memcmp(const void *, const void *, size_t);
+size_t __real_strlen(const char *);
+char *__real_strchr(const char *, int);
+char *__real_strpbrk(const char *, const char *);
+size_t __real_strcspn(const char *, const char *);
+int __real_strcmp(const char *, const char *);
+int __real_strncmp(const char *, const char *, size_t);
+int __real_strcasecmp(const char *, const char *);
+int __real_strncasecmp(const char *, const char *, size_t);
+
+static inline int vfInArena(const void *p) { return vfArena && (const unsigned char *)p >= vfArena && (const unsigned char *)p < vfArena + vfArenaSize; }
+/* a C-string read starting at p: the routine looks at everything up to and including the terminator */
+static inline void vfNoteStr(const char *p) { if (vfInArena(p)) vfNote((uintptr_t)p, __real_strlen(p) + 1, 0); }
+static inline void vfNoteStrN(const char *p, size_t n) { if (vfInArena(p)) { size_t k = 0; while (k < n && p[k]) ++k; vfNote((uintptr_t)p, k < n ? k + 1 : n, 0); } }
+
+void *__wrap_memcpy(void *d, const void *s, size_t n) { if (n) { vfNote((uintptr_t)s, n, 0); vfNote((uintptr_t)d, n, 1); } return __real_memcpy(d, s, n); }
+void *__wrap_memmove(void *d, const void *s, size_t n) { if (n) { vfNote((uintptr_t)s, n, 0); vfNote((uintptr_t)d, n, 1); } return __real_memmove(d, s, n); }
+void *__wrap_memset(void *d, int c, size_t n) { if (n) vfNote((uintptr_t)d, n, 1); return __real_memset(d, c, n); }
+void *__wrap_memchr(const void *s, int c, size_t n) { if (n) vfNote((uintptr_t)s, n, 0); return __real_memchr(s, c, n); }
+int __wrap_memcmp(const void *a, const void *b, size_t n) { if (n) { vfNote((uintptr_t)a, n, 0); vfNote((uintptr_t)b, n, 0); } return __real_memcmp(a, b, n); }
+size_t __wrap_strlen(const char *s) { const size_t r = __real_strlen(s); if (vfInArena(s)) vfNote((uintptr_t)s, r + 1, 0); return r; }
+char *__wrap_strchr(const char *s, int c) { vfNoteStr(s); return __real_strchr(s, c); }
+char *__wrap_strpbrk(const char *s, const char *a) { vfNoteStr(s); return __real_strpbrk(s, a); }
+size_t __wrap_strcspn(const char *s, const char *a) { vfNoteStr(s); return __real_strcspn(s, a); }
+int __wrap_strcmp(const char *a, const char *b) { vfNoteStr(a); vfNoteStr(b); return __real_strcmp(a, b); }
+int __wrap_strncmp(const char *a, const char *b, size_t n) { vfNoteStrN(a, n); vfNoteStrN(b, n); return __real_strncmp(a, b, n); }
+int __wrap_strcasecmp(const char *a, const char *b) { vfNoteStr(a); vfNoteStr(b); return __real_strcasecmp(a, b); }
+int __wrap_strncasecmp(const char *a, const char *b, size_t n) { vfNoteStrN(a, n); vfNoteStrN(b, n); return __real_strncasecmp(a, b, n); }
+
 #ifdef __cplusplus
 }
 #endif
